@@ -3,6 +3,7 @@ package harness
 import (
 	"context"
 	"errors"
+	"math"
 	"runtime"
 	"sort"
 	"sync"
@@ -30,7 +31,8 @@ type cbEvent struct {
 }
 
 func propInvalidator(c *Case) {
-	skip := []time.Duration{0, time.Second, time.Nanosecond, 2 * time.Nanosecond, time.Hour, -1, -time.Hour}[c.Pick("SkipInterval", 7)]
+	skip := []time.Duration{0, time.Second, time.Nanosecond, 2 * time.Nanosecond, time.Hour, -1, -time.Hour,
+		math.MaxInt64, 250 * 365 * 24 * time.Hour}[c.Pick("SkipInterval", 9)] // the last two: "only once"
 	eff := skip
 	if eff == 0 {
 		eff = 15 * time.Second
@@ -42,6 +44,11 @@ func propInvalidator(c *Case) {
 
 	// caller instants: cumulative offsets from a menu around the interval
 	menu := []time.Duration{0, 0, time.Nanosecond, eff - 1, eff, eff + 1, eff / 2, 2 * eff, 3 * time.Second}
+	if eff > 200*365*24*time.Hour {
+		// every reachable instant lies within the interval (the fake clock ends in year ~2255)
+		menu = []time.Duration{0, 0, time.Nanosecond, 3 * time.Second, time.Hour, 20 * 365 * 24 * time.Hour}
+		c.Class("huge-SkipInterval")
+	}
 	offsets := make([]time.Duration, ncallers)
 	cur := time.Duration(0)
 
